@@ -80,6 +80,10 @@ type Exec struct {
 	// Ever holds every (channel, ts) -> value ever handed to Write (latest generation).
 	Ever     map[uint32]map[string]Stamp // channel -> value bytes -> (timestamp, generation)
 	Sessions map[int]*SessionLog
+	// Bounds collects the client-visible layout boundaries (first timestamp of every
+	// write and last timestamp + 1, i.e. every possible commit end / domain edge); reads
+	// are aimed at them.
+	Bounds []int64
 	writers  map[int]*wstate
 	specs    map[uint32]ChanSpec
 
@@ -235,6 +239,9 @@ func (e *Exec) Step(i int, op Op) bool {
 		}
 		for _, p := range ps {
 			e.Ever[p.key][string(p.val)] = Stamp{p.ts, ws.op.Gen}
+		}
+		if len(op.TS) > 0 && len(e.Bounds) < 4096 {
+			e.Bounds = append(e.Bounds, op.TS[0], op.TS[len(op.TS)-1]+1)
 		}
 		sl := e.Sessions[op.W]
 		sl.Stamps = append(sl.Stamps, op.TS...)
@@ -574,6 +581,9 @@ func (e *Exec) GenReads(seed uint64, n int) []ReadSpec {
 	pick := func() int64 {
 		if len(pts) == 0 {
 			return T0 + r.I64n(3*Window)
+		}
+		if len(e.Bounds) > 0 && r.Chance(1, 4) {
+			return prng.Pick(r, e.Bounds)
 		}
 		i := r.Intn(len(pts))
 		t := pts[i]
